@@ -63,7 +63,7 @@ def deco(arr):
     return arr
 
 
-def catalogue(da, a, b, t, sq, v, ds, tmpdir):
+def catalogue(da, a, b, t, sq, v, ds, tmpdir, cn):
     x, y, z = a.dims
     ya = a.axes[y].values
     y0 = ya[0]
@@ -123,6 +123,14 @@ def catalogue(da, a, b, t, sq, v, ds, tmpdir):
         'ds-rename_axes-copy': lambda: ds.rename_axes({y: 'yy'}, inplace=False), 'ds-set_axis-copy': lambda: ds.set_axis(name='yy', axis=y, inplace=False),
         'ds-align': lambda: da.align([ds, b], sort=True), 'ds-reindex_like': lambda: ds.reindex_like(b),
     }
+    # a plain (not grouped) axis whose name contains a comma: reshape() supports it through a temporary ',' -> ';' renaming
+    cx = cn.dims[0]
+    ops.update({
+        'commaname-reshape-newdim': lambda: cn.reshape(cx, 'nn', y, z), 'commaname-reshape-permute': lambda: cn.reshape(z, cx, y),
+        'commaname-reshape-group': lambda: cn.reshape(cx, y + ',' + z), 'commaname-reshape-refused': lambda: cn.reshape(y, cx, z, transpose=False),
+        'commaname-reshape-drop-refused': lambda: cn.reshape(y, z), 'commaname-regroup': lambda: cn.flatten((y, z)).reshape(z, cx, y),
+        'commaname-transpose': lambda: cn.transpose(z, y, cx), 'commaname-mean': lambda: cn.mean(axis=cx), 'commaname-add': lambda: cn + cn.mean(axis=y),
+    })
     if getattr(da, '_ncio', False) and tmpdir:
         ops['write_nc'] = lambda: a.write_nc(os.path.join(tmpdir, 'imm.nc'), 'a')
         ops['ds-write_nc'] = lambda: ds.write_nc(os.path.join(tmpdir, 'imm2.nc'))
@@ -146,8 +154,10 @@ def check(case, ctx):
     ds.attrs['dm'] = {'q': [1]}
     tmpdir = tempfile.mkdtemp(prefix="vp-c15-") if getattr(da, '_ncio', False) else None
     try:
-        ops = catalogue(da, a, b, t, sq, v, ds, tmpdir)
-        watched = (a, b, t, sq, v, ds)
+        cn = deco(gen.build(case["a"], meta=False))
+        cn.axes[0].name = 'p,q'
+        ops = catalogue(da, a, b, t, sq, v, ds, tmpdir, cn)
+        watched = (a, b, t, sq, v, ds, cn)
         names = list(ops)
         classes = []
         for name in names:
